@@ -18,8 +18,8 @@ type genCtx struct {
 
 func newPlan(prop string, seed uint64, tier string) (*Plan, *genCtx) {
 	p := &Plan{Prop: prop, Seed: seed, Tier: tier, Target: "service",
-		Svc: SvcOpts{Filter: true, Handlers: "default", Addr: svcAddr},
-		Att: AttOpts{Addr: attAddr, Dialect: 1},
+		Svc:    SvcOpts{Filter: true, Handlers: "default", Addr: svcAddr},
+		Att:    AttOpts{Addr: attAddr, Dialect: 1},
 		Expect: &Expect{Extra: map[string]int64{}}}
 	g := &genCtx{r: newRng(seed), tier: tier, p: p}
 	return p, g
